@@ -17,7 +17,7 @@ def run(out, replay_path=None):
     parts = []
     for mod in (check_client, check_writer):
         o = Outcome(out.pid, out.tier, out.seed)
-        mod.run(o)
+        mod.run(o, with_sinks=False) if mod is check_writer else mod.run(o)
         parts.append(o)
     try:
         from . import check_sinks
